@@ -1,7 +1,7 @@
 #!/bin/sh
 # Runs every check's thorough tier in sequence and prints a one-line summary each (used with `vp run`).
 cd "$(dirname "$0")/.."
-for p in C16 C17 C18 C19 C20 C12 C14 C10 C11 C03 C06 C13 C09 C08 C07 C05 C04 C15 C02 C01; do
+for p in ${SWEEP:-C16 C17 C18 C19 C20 C12 C14 C10 C11 C03 C06 C13 C09 C08 C07 C05 C04 C15 C02 C01}; do
   start=$(date +%s)
   timeout 5400 ./check $p --tier thorough > .work_sweep_$p.log 2>&1
   rc=$?
